@@ -1,6 +1,8 @@
 """C05 — interval elementary functions and integer powers enclose every pointwise value.
 
-proof  : Pun.Props.C05 about Pun.Model.Elem (the definitions the driver executes)
+proof  : Pun.Props.C05 about Pun.Model.Elem (the definitions the driver executes); Pun.Props.C05Gen (scalar sin/cos/tan
+         case tables regenerated from methods.py equal the hand model); Pun.Props.C05Real (Mathlib's Real.sin/cos/tan
+         with the true periods satisfy every hypothesis of the trigonometric theorems)
 tie    : Interval.abs/exp/sqrt/log/sin/cos/tan/__pow__, methods.tanh, activation.sigmoid, np.<ufunc>(Interval),
          scalar / (1,) / 1-d / 2-d forms, against the compiled model.  numpy's transcendental values and the
          rounded intermediates (width, reduced endpoints) travel on the wire; for sin/cos/tan/abs/exp/sqrt/log the
@@ -52,7 +54,16 @@ def build(c):
 
 def kobj(c):
     k, kind = c["k"], c["kind"]
+    if kind == "npint32":
+        return np.int32(k)
+    if kind == "npuint8":
+        return np.uint8(k)
     return {"int": int(k), "npint": np.int64(k), "float": float(k), "bool": bool(k)}[kind]
+
+
+def wire_kind(kind):
+    """numpy integer classes are one kind for the model (class name in INTEGERS)"""
+    return "npint" if kind in ("npint32", "npuint8") else kind
 
 
 def call(c, X):
@@ -124,7 +135,7 @@ def wire(c):
             f = getattr(np, fn)
             return f"{fn} {tag} {enc(lo)} {enc(hi)} {enc(f(lo))} {enc(f(hi))}"
         if fn == "pow":
-            return f"pow {tag} {c['kind']} {int(c['k'])} {enc(lo)} {enc(hi)}"
+            return f"pow {tag} {wire_kind(c['kind'])} {int(c['k'])} {enc(lo)} {enc(hi)}"
         if fn == "sig":
             return f"sig {tag} {enc(np.exp(-hi))} {enc(np.exp(-lo))}"
         if fn == "tanh":
@@ -348,7 +359,7 @@ def oracle(c, impl):
     """list of (symptom, text) — the property evaluated on the real result"""
     els = elements(c)
     fn = c["fn"]
-    if fn == "pow" and c["kind"] not in ("int", "npint"):
+    if fn == "pow" and c["kind"] not in ("int", "npint", "npint32", "npuint8"):
         return []          # the property quantifies over integer exponents
     fails = []
     n = len(els)
@@ -433,6 +444,22 @@ def trig_pairs(period, rng, n):
     return out
 
 
+def exact_width_hi(lo, period):
+    """hi such that the binary64 difference hi - lo is EXACTLY the period constant (None if there is none)"""
+    lo = float(lo)
+    hi = lo + period
+    for _ in range(6):
+        d = hi - lo
+        if d == period:
+            return float(hi)
+        hi = float(np.nextafter(hi, np.inf if d < period else -np.inf))
+    return None
+
+
+def rd_(rng):
+    return rng.choice([-1, 1]) * 10 ** rng.uniform(-3, 1.2)
+
+
 def gen_cases(ctx):
     rng = ctx.rng
     cases = []
@@ -447,6 +474,69 @@ def gen_cases(ctx):
     cases.append(mk("witness", "pow", "S", "method", [1.0], [2.0], -2, "int"))
     cases.append(mk("witness", "pow", "S", "method", [-1.0], [2.0], -1, "int"))
     cases.append(mk("witness", "pow", "S", "method", [1.375], [1.875], -2, "npint"))
+    # ---- 0b. widths EXACTLY equal to the period in binary64 (and one ulp either side) ------------
+    for fn in TRIG:
+        period = PI if fn == "tan" else T2
+        los = [k * (period / 4) for k in range(-8, 9)] + [float(k) for k in range(-6, 7)] + \
+              [k / 8 for k in range(-20, 21, 3)] + [rng.uniform(-60, 60) for _ in range(ctx.scale(40, 2000))]
+        exact = []
+        for lo in los:
+            hi = exact_width_hi(lo, period)
+            if hi is None:
+                continue
+            exact.append((lo, hi))
+            cases.append(mk("trig-exactT", fn, "S", "method", [lo], [hi]))
+            for h2 in (float(np.nextafter(hi, -np.inf)), float(np.nextafter(hi, np.inf))):
+                cases.append(mk("trig-exactT", fn, "S", rng.choice(["method", "ufunc"]), [lo], [h2]))
+        ordinary = [(0.1, 0.2), (1.0, 2.0), (-1.0, 1.0), (3.0, 3.5), (-0.3, 0.0)]
+        for _ in range(ctx.scale(60, 1500)):
+            n = rng.choice([2, 3, 4, 6])
+            xs = [rng.choice(exact) if rng.random() < 0.5 else rng.choice(ordinary) for _ in range(n)]
+            if not any(x in exact for x in xs):
+                xs[rng.randrange(n)] = rng.choice(exact)
+            form = "A2" if (n in (4, 6) and rng.random() < 0.4) else "A"
+            cases.append(mk("trig-exactT-array", fn, form, rng.choice(["method", "ufunc"]), [x[0] for x in xs], [x[1] for x in xs]))
+        for lo, hi in exact[:6]:
+            cases.append(mk("trig-exactT", fn, "S1", "method", [lo], [hi]))
+            cases.append(mk("trig-exactT", fn, "S", "vec", [lo], [hi]))
+    # ---- 0c. abs of arrays that MIX zero-containing / zero-touching and zero-free elements ----------
+    zin = [(-1.0, 2.0), (-3.0, 0.5), (0.0, 2.0), (-2.0, 0.0), (0.0, 0.0), (-1e-300, 1e-300), (-0.25, 4.0)]
+    zfree = [(1.0, 2.0), (0.5, 0.5), (-3.0, -2.0), (-0.25, -1e-300), (1e-300, 4.0), (2.0, 9.0), (-9.0, -4.0)]
+    for _ in range(ctx.scale(150, 3000)):
+        n = rng.choice([2, 3, 4, 5, 6])
+        xs = [rng.choice(zin) if rng.random() < 0.5 else rng.choice(zfree) for _ in range(n)]
+        i, j = rng.sample(range(n), 2)
+        xs[i], xs[j] = rng.choice(zin), rng.choice(zfree)
+        if rng.random() < 0.3:
+            a, b = sorted([rd_(rng), rd_(rng)])
+            xs[rng.randrange(n)] = (a, b)
+        form = "A2" if (n in (4, 6) and rng.random() < 0.4) else "A"
+        cases.append(mk("abs-mixed", "abs", form, "method", [x[0] for x in xs], [x[1] for x in xs]))
+    # ---- 0d. even / odd powers of straddling intervals, either endpoint dominating ------------------------
+    for _ in range(ctx.scale(250, 6000)):
+        k = rng.choice([0, 1, 2, 2, 3, 4, 4, 5, 6, 6])
+        def strad():
+            a, b = abs(rd_(rng)) % 8.0, abs(rd_(rng)) % 8.0
+            r = rng.random()
+            if r < 0.4:
+                a, b = max(a, b) + 0.5, min(a, b)          # |lo| > hi
+            elif r < 0.8:
+                a, b = min(a, b), max(a, b) + 0.5          # hi > |lo|
+            elif r < 0.9:
+                b = 0.0                                    # touches 0 from the left
+            else:
+                a = 0.0
+            if rng.random() < 0.5:
+                a, b = float(round(a * 4) / 4), float(round(b * 4) / 4)
+            return -a, b
+        if rng.random() < 0.5:
+            lo, hi = strad()
+            cases.append(mk("pow-straddle", "pow", "S", "method", [lo], [hi], k, rng.choice(["int", "npint", "npint32", "npuint8"])))
+        else:
+            n = rng.choice([2, 3, 4])
+            xs = [strad() if rng.random() < 0.7 else rng.choice([(1.0, 2.0), (-3.0, -1.5), (0.5, 0.75)]) for _ in range(n)]
+            cases.append(mk("pow-straddle", "pow", "A2" if n == 4 and rng.random() < 0.5 else "A", "method",
+                            [x[0] for x in xs], [x[1] for x in xs], k, rng.choice(["int", "npint"])))
     # ---- 1. sin / cos / tan ---------------------------------------------------------
     for fn in TRIG:
         period = PI if fn == "tan" else T2
@@ -574,7 +664,16 @@ def run(ctx: core.Check, cases=None):
         "dense sampling with numpy's functions bounds the difference to the real period on |x| <= 80 (tolerance 1e-14)",
         "sampling oracle: 2001 points + multiples of pi/2 per interval; tolerances 8 ulp (monotone), 1e-15 (sigmoid, tanh)",
     ]
-    ctx.lean_stage(["Pun.Props.C05"])
+    gen_out = core.LEAN / "Pun/Gen/TrigGen.lean"
+    mods = ["Pun.Props.C05", "Pun.Props.C05Gen"]
+    # Props/C05Real (Mathlib's Real.sin/cos/tan satisfy the hypotheses) imports Mathlib's analysis library:
+    # ~40-75 s to build from scratch, ~6 s to audit once built.  Thorough tier always; quick tier when it is built.
+    real_built = (core.LEAN / ".lake/build/lib/lean/Pun/Props/C05Real.olean").exists()
+    if ctx.tier == "thorough" or real_built:
+        mods.append("Pun.Props.C05Real")
+    else:
+        ctx.notes.append("Pun.Props.C05Real not built yet: audited in the thorough tier only")
+    ctx.lean_stage(mods, generators=[("methods.py sin/cos/tan case tables", lambda: _gen(gen_out))])
     check_consts(ctx)
     if cases is None:
         cases = gen_cases(ctx)
@@ -595,6 +694,12 @@ def run(ctx: core.Check, cases=None):
             ctx.fail(features(c, sym), case_json(c, impl=impl), f"{c['fn']} {c['form']}/{c['entry']}: {text}")
         if len(ctx.samples) < 6 and c["stream"] in ("trig-array", "pow-array", "mono-random", "trig-pairs") and ctx.rng.random() < 0.01:
             ctx.sample(case_json(c, impl=impl, model=rep))
+
+
+def _gen(out):
+    from .translator import trig as tr
+    tr.generate(core.REPO, out)
+    return "ok: sinGen, cosGen, tanGen regenerated"
 
 
 def replay(obj):
